@@ -3,7 +3,9 @@ import k2check
 
 
 def run(tier):
-    return k2check.run("C12", tier, profile="locked")
+    # the destination must also be a working table for operations that were parked while the image was read:
+    # the stream-section programs under the deterministic scheduler (protocol monitors, linearizability)
+    return k2check.run("C12", tier, profile="locked", k3_programs=["section-stream", "section-stream-restore"])
 
 
 def replay(path):
